@@ -261,3 +261,23 @@ CHECKS = {
 }
 _NYB = 'not yet built in this session (framework under construction); see DESIGN.md §5 for the plan'
 NOT_APPLICABLE = {f'C{i:02d}': _NYB for i in range(1, 21) if f'C{i:02d}' not in CHECKS}
+
+
+# ---- additions of the sixth / seventh seed rounds and the mutation sweep (appended to the level texts) ----------------------
+_ADD = {
+    'C01': 'Also: a cell and the aligned cell whose data is its padded image, created one after the other, each report their own specification hash (no digest remembered under a lossy key); the descriptor accessors with their default arguments.',
+    'C03': 'Also deductive: cells at the upper end of the capacity (1015/1016/1017/1023 data bits) round-trip.',
+    'C04': 'Also deductive: one cell object serialised inside several different bags gives the specification encoding of each bag (no per-object serialisation state); cells of 1015..1023 data bits.',
+    'C06': 'Also: preload_string() / preload_ref(k) / store_snake_string with and without prefix.',
+    'C07': 'Also: a stated width of 0 (or negative) refuses every non-zero value and stores nothing.',
+    'C08': 'Also deductive: to_boc of one cell object in several bags (no state carried between calls); the random histories parse every serialisation back.',
+    'C09': 'Also deductive: optional dictionaries in the middle of a cell, after consumed references, read with preload_dict then load_dict.',
+    'C10': 'Also deductive: labels at every remaining key length m >= n including m = 0 (empty long/same labels); the HashmapAugE head (empty / root form, root extra consumed after the reference, reference cursor honoured).',
+    'C12': 'Also: the contract of verify_sign that the acceptance obligation relies on is an obligation of its own (the primitive receives exactly the given key, message and signature by value); BOUNDED native forgeries with real Ed25519 (combined-form and length-altered signatures by a listed validator are refused).',
+    'C14': 'Also: BlockIdExt == holds iff all five fields agree.',
+    'C17': 'Also deductive: serialising again after a value was changed in place (nested tuple, outer tuple, stack list) gives the schema encoding of the changed stack.',
+    'C19': 'Also BOUNDED: equal-but-distinct twin cells cross-wired to depth 60 (built, and parsed from a bag that lists every cell twice): Cell.__eq__/__hash__ calls and loop iterations stay linear.',
+    'C20': 'Also BOUNDED: mnemonics generated with explicit length 24 and with passwords are valid (other word counts are outside the domain: mnemonic_is_valid demands 24 words).',
+}
+for _k, _v in _ADD.items():
+    CHECKS[_k]['text'] = CHECKS[_k]['text'].rstrip() + '  ' + _v
